@@ -106,7 +106,7 @@ Proof.
   - (* POrderBy *) open_sub p; try discriminate H. dm H. inversion H; subst.
     cbn [strict_type]. rewrite (IHp _ _ eq_refl G). rw_hyps. reflexivity.
   - (* PUnion *)
-    apply andb_true_iff in G. destruct G as [G12 G3]. apply andb_true_iff in G12. destruct G12 as [G1 G2].
+    apply andb_true_iff in G. destruct G as [G1 G2].
     open_sub p1; try discriminate H. open_sub p2; try discriminate H.
     pose proof (IHp1 _ _ eq_refl G1) as S1. pose proof (IHp2 _ _ eq_refl G2) as S2.
     destruct (select_fields row key) as [ks1|] eqn:Ek1; [|discriminate H].
@@ -114,8 +114,8 @@ Proof.
     destruct (fields_eqb ks1 ks2 && nlist_eqb key key0) eqn:Ekk; cbn [negb] in H; [|discriminate H].
     apply andb_true_iff in Ekk. destruct Ekk as [_ Ekeys].
     destruct unify; cbn [negb] in H.
-    + destruct (fields_eqb (value_fields row key) (value_fields row0 key0)) eqn:Ev.
-      * inversion H; subst. cbn [negb orb] in G3. cbn [strict_type]. rewrite S1, S2, G3, Ekeys. reflexivity.
+    + destruct (fields_eqb row row0) eqn:Ev.
+      * inversion H; subst. cbn [strict_type]. rewrite S1, S2, Ev, Ekeys. reflexivity.
       * dm H. inversion H; subst. clear H. split_bools. use_elab.
         cbn [strict_type]. rewrite S1, S2. rw_hyps. cbn [andb]. reflexivity.
     + destruct (fields_eqb row row0) eqn:Er; [|discriminate H]. inversion H; subst.
@@ -228,11 +228,19 @@ Definition ex_refuted_row_key_type : prog :=
   let m := PMKeyRowsBy (PMAnnotateRows PMRange [(1, ELitStr 0)]) [1] in
   PMAnnotateRowsIv m ex_right_iv 7 (vafield [(ROW_IDX, TI32); (1, TStr)] ROW_IDX) false [(2, lookup_of VA 7)].
 
-(* REFUTED (3): k1 = range_table(n).annotate(a = 1).key_by('a')  (row {idx, a});  k2 = k1.select('idx')  (row {a, idx});
-   k1.union(k2, unify=True): the value types coincide, so no select is made, and TableUnion gets children whose row
-   types differ in field order *)
+(* k1 = range_table(n).annotate(a = 1).key_by('a')  (row {idx, a});  k2 = k1.select('idx')  (row {a, idx});
+   k1.union(k2, unify=True): the value types coincide but the row types do not.  Before e910686b1 the front end made no
+   select here and sent a TableUnion of differently ordered rows (finding TableUnion:row-field-order, fixed); now both
+   tables are re-selected into the row {a, idx} *)
 Definition ex_union_k1 : prog := PKeyBy (PAnnotate PRange [(0, ELitInt 1)]) [0].
-Definition ex_refuted_union_order : prog := PUnion ex_union_k1 (PSelect ex_union_k1 [IDX]) true.
+Definition ex_union_order : prog := PUnion ex_union_k1 (PSelect ex_union_k1 [IDX]) true.
+Example example_union_key_position :
+  reported ex_union_order = Some (RT (TT [] [(0, TI32); (IDX, TI32)] [0]))
+  /\ option_map strict_type (emitted ex_union_order) = Some (reported ex_union_order)
+  (* the shortcut as it was: the two tables sent as they are have no type *)
+  /\ option_map strict_type (option_map (fun a => TableUnion a (TableMapRows a (InsertFields (SelectFields (SelectFields (Ref ROW (TStruct [(IDX, TI32); (0, TI32)])) [IDX; 0]) [0; IDX]) [])))
+                                        (emitted ex_union_k1)) = Some None.
+Proof. vm_compute. repeat split. Qed.
 
 (* t1 = range.annotate(a = idx, b = 'x'); t2 = range.annotate(b = 'y', a = 1.5); t1.union(t2, unify=True):
    a is promoted to float64 in the first table, the second is re-ordered; reported row {idx, a: float64, b: str} *)
@@ -246,8 +254,7 @@ Proof. vm_compute. repeat split. Qed.
 
 Theorem table_type_agreement_refuted :
   (exists t x, telab ex_refuted_compound_key = Some (t, x) /\ strict_type x = None) /\
-  (exists t x, telab ex_refuted_row_key_type = Some (t, x) /\ strict_type x = None) /\
-  (exists t x, telab ex_refuted_union_order = Some (t, x) /\ strict_type x = None).
+  (exists t x, telab ex_refuted_row_key_type = Some (t, x) /\ strict_type x = None).
 Proof. repeat split; vm_compute; eexists; eexists; split; reflexivity. Qed.
 
 Theorem table_type_agreement_full_fails : ~ table_type_agreement_full.
